@@ -72,6 +72,63 @@ def PyVal.strOf : PyVal → Option StrMod
   | .str m => some m
   | _ => Option.none
 
+/-! ### Python primitives on these values (also the vocabulary of the regenerated code, `Gen/Dispatch.lean`) -/
+
+def PyVal.isNone : PyVal → Bool
+  | .none => true
+  | _ => false
+def PyVal.isInt : PyVal → Bool
+  | .int _ => true
+  | _ => false
+def PyVal.isTuple : PyVal → Bool
+  | .tuple _ => true
+  | _ => false
+def PyVal.isSlice : PyVal → Bool
+  | .slice _ => true
+  | _ => false
+def PyVal.isEll : PyVal → Bool
+  | .ell => true
+  | _ => false
+/-- the integer behind a value known (by an enclosing `isinstance` test) to be an `int` -/
+def PyVal.intGet : PyVal → Int
+  | .int i => i
+  | _ => 0
+/-- `s.strip().lower()` of a value known to be a `str` -/
+def PyVal.strGet : PyVal → StrMod
+  | .str m => m
+  | _ => .unknown
+/-- a value known to be a slice or Ellipsis, as a subscript entry -/
+def PyVal.entryGet : PyVal → SubEntry
+  | .slice s => .item (.slice s)
+  | _ => .ell
+/-- `v[-1]` -/
+def pyLast : PyVal → Except Err PyVal
+  | .tuple l =>
+    match l.getLast? with
+    | Option.none => .error .indexError
+    | some v => .ok v
+  | _ => .error .typeError
+/-- `v[:-1]` -/
+def pyDropLast : PyVal → Except Err PyVal
+  | .tuple l => .ok (.tuple l.dropLast)
+  | _ => .error .typeError
+/-- `*v` in a call -/
+def pyStar : PyVal → Except Err (List PyVal)
+  | .tuple l => .ok l
+  | _ => .error .typeError
+/-- `for entry in v` -/
+def pyIter : PyVal → List PyVal
+  | .tuple l => l
+  | _ => []
+/-- a `for` loop over `xs` threading an accumulator, with exceptions -/
+def pyFor {σ : Type} (xs : List PyVal) (init : σ) (step : σ → PyVal → Except Err σ) : Except Err σ :=
+  match xs with
+  | [] => .ok init
+  | x :: r =>
+    match step init x with
+    | .error e => .error e
+    | .ok s => pyFor r s step
+
 /-! ### `extract_string_from_subscript` -/
 
 /-- data_segment.py:219-232: a lone string becomes `(None, (s,))`; in a tuple the strings are collected and, if there is at
@@ -103,6 +160,11 @@ def sliceOfTuple (l : List PyVal) : Except Err PySlice :=
   | [some a] => .ok ⟨Option.none, a, Option.none⟩
   | [some a, some b] => .ok ⟨a, b, Option.none⟩
   | [some a, some b, some c] => .ok ⟨a, b, c⟩
+  | _ => .error .typeError
+
+/-- `slice(*v)` -/
+def pySliceStar : PyVal → Except Err PySlice
+  | .tuple l => sliceOfTuple l
   | _ => .error .typeError
 
 /-- base.py:399-409, the body of `for rng in ranges` -/
